@@ -235,6 +235,10 @@ func applyJSGenerated(c C16Case) (string, error) {
 			ds = append(ds, ref.Directive{Name: "noAutoescape"})
 		}
 	}
+	if len(c.Value.S)%2 == 1 {
+		// a marker directive in front (it encodes nothing and has no JavaScript counterpart)
+		ds = append([]ref.Directive{{Name: "id"}}, ds...)
+	}
 	p := ref.Program{Files: []ref.File{{Name: "d.soy", Namespace: "dgen", Autoescape: mode, Templates: []ref.Template{{Name: "t", Params: []ref.ParamDecl{{Name: "x"}},
 		Body: []ref.Cmd{{K: "print", Expr: varE("x"), Directives: ds}}}}}}}
 	names, srcs := gen.Sources(&p)
@@ -242,9 +246,17 @@ func applyJSGenerated(c C16Case) (string, error) {
 	if err != nil || pn != nil {
 		return "", fmt.Errorf("compile: %v %v", err, pn)
 	}
+	before := cb.render("dgen.t", map[string]ref.Value{"x": c.Value}, nil, false)
 	files, err := jsSources(cb, soyjs.Options{}, false)
 	if err != nil {
 		return "", err
+	}
+	// the compiled bundle serves both back ends: generating the script leaves it as it was
+	if again, err2 := jsSources(cb, soyjs.Options{}, false); err2 != nil || len(again) != len(files) || again[0].Src != files[0].Src {
+		return "", fmt.Errorf("generating the JavaScript of one compiled bundle a second time gives another script (%v):\n%s\n--- then ---\n%s", err2, files[0].Src, again[0].Src)
+	}
+	if after := cb.render("dgen.t", map[string]ref.Value{"x": c.Value}, nil, false); after.out != before.out || (after.err == nil) != (before.err == nil) {
+		return "", fmt.Errorf("the Go renderer writes %q before the JavaScript of the same compiled bundle is generated and %q after", trunc(before.out, 200), trunc(after.out, 200))
 	}
 	calls := []jsCall{{Name: "dgen.t", Data: map[string]interface{}{"x": c.Value.S}}}
 	if len(c.Value.S)%3 == 0 {
